@@ -44,6 +44,9 @@ BUDGET = {
   'thorough': dict(native_s=480, native_procs=8, proc_ms=20000, miri_s=480, miri_procs=5, asan_s=200, asan_procs=2, tsan_s=200, tsan_procs=2, memcheck_s=200, memcheck_procs=2),
 }
 FAMILIES = ['mix', 'mix', 'uniform', 'none', 'mix', 'onebig', 'uniform', 'mix']
+# thorough: every process whose family is 'targeted' delays at one (site, position) pair per program run, drawn from the pairs it has seen:
+# over the budget this sweeps all pairs many times (coverage.noise.site_positions_delayed reports how many were actually perturbed)
+FAMILIES_THOROUGH = ['mix', 'targeted', 'uniform', 'targeted', 'none', 'onebig', 'targeted', 'mix', 'uniform', 'targeted']
 ASAN_PROPS = {'C05', 'C08', 'C11', 'C14'}
 TSAN_PROPS = {'C01', 'C14'}
 MEMCHECK_PROPS = {'C05', 'C14'}
@@ -261,7 +264,8 @@ def run_check(prop, tier, seed):
             import traceback; traceback.print_exc(); res[name] = ('error', str(e))
     jobs = []
     if want('native'):
-        jobs.append(('native', lambda: run_native(bins['native'], prop, tier, seed, out_dir, b['native_s'], b['native_procs'], b['proc_ms'])))
+        fams = FAMILIES_THOROUGH if tier == 'thorough' else FAMILIES
+        jobs.append(('native', lambda: run_native(bins['native'], prop, tier, seed, out_dir, b['native_s'], b['native_procs'], b['proc_ms'], families=fams)))
     if use_miri:
         jobs.append(('miri', lambda: sanit.run_miri(prop, seed, out_dir, b['miri_s'], b['miri_procs'], log)))
     if use_asan:
